@@ -9,6 +9,8 @@ hit / hold / sample lines contain integers only and are proved down to the chara
 -/
 import Reamber.Lemmas.OsuHeader
 import Reamber.Lemmas.OsuDenote
+import Reamber.Lemmas.OsuDialect
+import Reamber.Lemmas.OsuWritten
 import Reamber.Generated.OsuTables
 
 namespace Reamber.Osu
@@ -488,5 +490,63 @@ def nlChart : Chart := { md := { stackLeniency := 1, timelineZoom := 2, sliderMu
 theorem uni_newline_counterexample :
     (readText (writeText nlRender nlChart)).toOption.map (·.md.title) = some ['a'] ∧
     (quantize nlRender.uni nlChart).md.title = ['a', '\n', 'b'] := by decide +kernel
+
+/-! ## text → chart → text: the other direction -/
+
+/-- **Whole file, text → chart** (restated from `Lemmas/OsuDialect.lean`): on every text whose trimmed lines form a
+well-formed `Skeleton` (the formalised `dialect_ok`), `OsuMap.read` returns the chart `c` iff the by-the-book denotation
+does (key count ≥ 1). -/
+theorem read_text_iff_denote (s : Skeleton) (hwf : s.WF) (lines0 : List Str) (hl : lines0.map strip = s.lines)
+    (c : Chart) (hk : 1 ≤ pyTrunc c.md.circleSize) : read lines0 = .ok c ↔ denote lines0 = .ok c :=
+  read_iff_denote s hwf lines0 hl c hk
+
+/-- **chart → text → chart, by the book**: the written text is a text of the dialect (`writtenSkeleton_wf`) and the
+format reads it as `quantize c` — `denoteText (writeText R c) = quantize c`.  Hypotheses of `read_writeText` plus: the
+background file name has no `"` and no `,` (by the book the background event is a comma-separated, quoted field). -/
+theorem denote_writeText (R : Render) (c : Chart)
+    (hk : 0 < pyTrunc c.md.circleSize) (hk' : pyTrunc c.md.circleSize ≤ 256)
+    (hhits : ∀ h ∈ c.hits, ObjOk2 (pyTrunc c.md.circleSize) (.hit h))
+    (hholds : ∀ h ∈ c.holds, ObjOk2 (pyTrunc c.md.circleSize) (.hold h))
+    (hb : ∀ b ∈ c.bpms, BpmOk2 R b) (hs : ∀ b ∈ c.svs, SvOk2 R b)
+    (hm : MetaOk R c.md) (hnl : ∀ tl ∈ writeMeta c.md, ∀ t ∈ tl, '\n' ∉ R.tok t)
+    (hbq : '"' ∉ c.md.backgroundFileName) (hbc : ',' ∉ c.md.backgroundFileName) :
+    denoteText (writeText R c) = .ok (quantize R.uni c) := by
+  have hrw := read_writeText R c hk hk' hhits hholds hb hs hm hnl
+  have hsf : ∀ s ∈ c.md.samples, ',' ∉ s.file := by
+    unfold MetaOk at hm
+    exact hm.2.2.2.2.2.2.2.2.2.2.2.2
+  unfold readText at hrw
+  unfold denoteText
+  exact denote_eq_read (writtenSkeleton R c) (writtenSkeleton_wf R c hhits hholds hb hs hsf hbq hbc) _
+    (strip_lines_written R c hhits hholds hb hs hnl) _ hrw (by show 1 ≤ pyTrunc c.md.circleSize; omega)
+
+/-- `denote (write (read t)) = quantize (denote t)` — PARTIAL.
+Full statement: for every dialect text `t` with `denote t = .ok c` (key count 1..256) and every renderer satisfying
+the read-back assumptions: `read t = .ok c` and `denoteText (writeText R c) = .ok (quantize R.uni c)`.
+Proved: exactly that, with the write-side hypotheses on `c` stated explicitly instead of derived from "`c` was read
+from a dialect text".  What a full proof would still have to derive from `denote t = .ok c` and `s.WF`:
+columns inside the key count (clamp of `xToCol`), hitsound / sample file names free of `,` `:` and trailing blanks
+(they are split fields of trimmed lines), non-zero bpm / SV (`60000 / code`, `-100 / code`), integral
+AudioLeadIn / BeatDivisor / GridSize (read by `int()`), background name free of `"` `,` (`BgOk`).
+The renderer assumptions (`ReprOk`, `NumOk`, no line break in a header token) are parameters of the model and stay
+hypotheses in any case.  Both whole-file theorems (`read_text_iff_denote`, `read_writeText`), the by-the-book reading
+of a written file (`denote_writeText`) and all line / section theorems are proved without such gaps. -/
+theorem denote_write_read_partial (s : Skeleton) (hwf : s.WF) (lines0 : List Str) (hl : lines0.map strip = s.lines)
+    (c : Chart) (hden : denote lines0 = .ok c) (R : Render)
+    (hk : 0 < pyTrunc c.md.circleSize) (hk' : pyTrunc c.md.circleSize ≤ 256)
+    (hhits : ∀ h ∈ c.hits, ObjOk2 (pyTrunc c.md.circleSize) (.hit h))
+    (hholds : ∀ h ∈ c.holds, ObjOk2 (pyTrunc c.md.circleSize) (.hold h))
+    (hb : ∀ b ∈ c.bpms, BpmOk2 R b) (hs : ∀ b ∈ c.svs, SvOk2 R b)
+    (hm : MetaOk R c.md) (hnl : ∀ tl ∈ writeMeta c.md, ∀ t ∈ tl, '\n' ∉ R.tok t)
+    (hbq : '"' ∉ c.md.backgroundFileName) (hbc : ',' ∉ c.md.backgroundFileName) :
+    read lines0 = .ok c ∧ denoteText (writeText R c) = .ok (quantize R.uni c) :=
+  ⟨read_eq_denote s hwf lines0 hl c hden (by omega),
+   denote_writeText R c hk hk' hhits hholds hb hs hm hnl hbq hbc⟩
+
+/-- non-vacuity: the 7K demo chart written and read by the book -/
+example : denoteText (writeText intRender demoChart) = .ok (quantize id demoChart) :=
+  denote_writeText intRender demoChart (by decide +kernel) (by decide +kernel) (by decide +kernel) (by decide +kernel)
+    (by decide +kernel) (by decide +kernel) (by decide +kernel) (by decide +kernel) (by decide +kernel)
+    (by decide +kernel)
 
 end Reamber.Osu
